@@ -13,7 +13,7 @@ ANCHORS = ["src/pylife/strength/miner.py", "src/pylife/strength/solidity.py", "s
 SHARDS = {"quick": 4, "thorough": 16}
 WATCHDOG = {"quick": 900, "thorough": 3000}
 REQUIRED_CLASSES = {t: ["empty_top_class", "empty_bottom_class", "empty_interior_class", "single_class", "all_below_SD",
-                        "straddling_SD", "all_above_SD", "form:histogram", "form:collective_frame", "order:reversed", "order:permuted"]
+                        "straddling_SD", "all_above_SD", "form:histogram", "form:collective_frame", "order:reversed", "order:permuted", "histogram:accessor_kept_counts_updated_in_place"]
                     for t in ("quick", "thorough")}
 REQUIRED_MONITORS = ["damage==sum(n_i/N_i)", "additive_over_split", "proportional_to_cycles", "permutation_invariant",
                      "original<=haibach<=elementary", "gassner:elementary_damage==1", "gassner:haibach_damage==1",
@@ -178,6 +178,20 @@ def run_case(case, ctx):
     f = float(rng.uniform(0.1, 50))
     dS = float(np.sum(np.asarray(par.fatigue.damage(rebuilt(cyc * f)), dtype=float)))
     ctx.check("proportional_to_cycles", _close(dS, sums["haibach"] * f, 1e-9), observed=dS, expected=sums["haibach"] * f)
+    if case["form"] == "histogram":
+        # a histogram object that is kept while its counts are updated in place (measurements accumulating, extrapolation):
+        # every evaluation sees the counts of that moment
+        ctx.tag("histogram:accessor_kept_counts_updated_in_place")
+        hs_ = pd.Series(np.asarray(cyc, dtype=float), index=raw.index, name="cycles")
+        kept = hs_.load_collective
+        d0 = float(np.sum(np.asarray(par.fatigue.damage(kept), dtype=float)))
+        hs_ *= f
+        d1 = float(np.sum(np.asarray(par.fatigue.damage(kept), dtype=float)))
+        hs_.iloc[:] = np.asarray(cyc, dtype=float) * 2.0
+        d2 = float(np.sum(np.asarray(par.fatigue.damage(kept), dtype=float)))
+        ctx.check("proportional_to_cycles", _close(d0, sums["haibach"], 1e-9) and _close(d1, sums["haibach"] * f, 1e-9) and _close(
+            d2, sums["haibach"] * 2.0, 1e-9), observed=[d0, d1, d2], expected=[sums["haibach"], sums["haibach"] * f, sums["haibach"] * 2],
+            detail="accessor kept, counts updated in place")
     order = rng.permutation(m)
     dP = float(np.sum(np.asarray(par.fatigue.damage(rebuilt(cyc, order)), dtype=float)))
     ctx.check("permutation_invariant", _close(dP, sums["haibach"], 1e-9), observed=dP, expected=sums["haibach"])
